@@ -94,6 +94,12 @@ def compare(ck, c, res, variant, values):
 
 
 def run(ck, only=None):
+    from . import c02f
+    if only and only.get("foreign"):
+        c02f.run(ck, only)
+        return
+    if not only:
+        c02f.run(ck)
     if only and only.get("cxxrow"):
         cxx_layout_part(ck, only)
         return
